@@ -116,7 +116,7 @@ def tree_case(ck, ivs, queries, points, meta, use_model=True):
     want_p = [[i for i, (a, b) in enumerate(ivs) if a <= p <= b] for p in points]
     nontriv = sum(1 for w in want_q if w) > 0 and len(ivs) > 1
     ck.case(key=json.dumps(case["intervals"]) if nontriv else None, kind=f"tree/{meta.get('kind')}/{meta.get('style')}",
-            sample={"intervals": case["intervals"][:8], "query": case["queries"][0], "answer": want_q[0][:8]})
+            sample={"intervals": case["intervals"][:8], "query": (case["queries"] or [None])[0], "answer": (want_q or [[]])[0][:8]})
     for k, (g, w, r) in enumerate(zip(got_q, want_q, raw_q)):
         if g != w or len(r) != len(set(r)):
             c = dict(case, queries=[case["queries"][k]], points=[])
@@ -157,8 +157,24 @@ def tree_case(ck, ivs, queries, points, meta, use_model=True):
 TEMPLATE = "{year}{month}{day}_{hour}{minute}{second}{millisecond}-{end_year}{end_month}{end_day}_{end_hour}{end_minute}{end_second}{end_millisecond}.dat"
 
 
+TEMPLATE_US = "{year}{month}{day}_{hour}{minute}{second}{microsecond}-{end_year}{end_month}{end_day}_{end_hour}{end_minute}{end_second}{end_microsecond}.dat"
+
+
+def own_name(directory, a, b, micro):
+    """file name for the coverage (a, b), formatted by the harness itself"""
+    if micro:
+        f = lambda t: f"{t:%Y%m%d_%H%M%S}{t.microsecond:06d}"
+    else:
+        f = lambda t: f"{t:%Y%m%d_%H%M%S}{t.microsecond // 1000:03d}"
+    return os.path.join(directory, f"{f(a)}-{f(b)}.dat")
+
+
 def us(t):
     return (t - dt.datetime(1, 1, 1)) // dt.timedelta(microseconds=1)
+
+
+def from_us(n):
+    return dt.datetime(1, 1, 1) + dt.timedelta(microseconds=n)
 
 
 def gen_fileset_times(rng, origin, n, whole=False, res=None):
@@ -175,62 +191,95 @@ def gen_fileset_times(rng, origin, n, whole=False, res=None):
 
 
 def match_case(ck, rng, scratch, use_model=True):
-    from typhon.files import FileSet
     origin = dt.datetime(2015, 1, 1) + dt.timedelta(days=rng.randint(0, 2000), hours=rng.randint(0, 23))
-    long_scale = rng.random() < 0.35        # files hours/days apart, max_interval of a day or more
-    res = rng.choice([3_600_000_000, 6 * 3_600_000_000]) if long_scale else None
+    long_scale = rng.random() < 0.3        # files hours/days apart, max_interval of a day or more
+    micro = (not long_scale) and rng.random() < 0.3      # microsecond-resolution names and thresholds
+    res = rng.choice([3_600_000_000, 6 * 3_600_000_000]) if long_scale else (rng.choice([1, 7, 250]) if micro else None)
     t1 = gen_fileset_times(rng, origin, rng.randint(1, 12), whole=rng.random() < 0.15, res=res)
-    t2 = gen_fileset_times(rng, origin + dt.timedelta(microseconds=rng.randint(-50, 50) * 1000),
+    t2 = gen_fileset_times(rng, origin + dt.timedelta(microseconds=rng.randint(-50, 50) * (1 if micro else 1000)),
                            rng.randint(1, 12), whole=rng.random() < 0.2, res=res)
     if long_scale:
         mi_us = rng.choice([0, 3_600_000_000, 86_400_000_000, 86_400_000_000 + 5_000_000, 2 * 86_400_000_000 + 1500,
                             7 * 86_400_000_000, None])
+    elif micro:
+        mi_us = rng.choice([None, 0, 1, 3, 999, 1500, 2_000_001])
     else:
         mi_us = rng.choice([None, 0, 1000, 1_500_000, 1_000_000, 60_000_000, 3_600_000_000, 86_400_000_000])
+    lo = min(t1[0][0], t2[0][0]) - dt.timedelta(hours=2)
+    hi = max(t1[-1][1], t2[-1][1]) + dt.timedelta(hours=2)
+    if rng.random() < 0.5 and not long_scale:   # period cutting through the data
+        lo = origin + dt.timedelta(microseconds=rng.randint(0, 200) * (1 if micro else 1_000_000))
+        hi = lo + dt.timedelta(microseconds=rng.randint(1, 400) * (1 if micro else 1_000_000))
+    open_kind = rng.choice(["closed", "closed", "closed", "open-start", "open-end", "open-both"])
+    case = {"op": "match", "t1": [[us(x), us(y)] for x, y in t1], "t2": [[us(x), us(y)] for x, y in t2],
+            "start": None if open_kind in ("open-start", "open-both") else us(lo),
+            "end": None if open_kind in ("open-end", "open-both") else us(hi),
+            "mi": mi_us, "micro": micro, "long": long_scale}
+    run_match(ck, case, scratch, use_model)
+
+
+def run_match(ck, case, scratch, use_model=True):
+    """build the two filesets of `case` on disk, run the real match(), the oracle and the model"""
+    from typhon.files import FileSet
+    from typhon.files.fileset import NoFilesError
+    micro, mi_us = case.get("micro", False), case["mi"]
+    t1 = [(from_us(a), from_us(b)) for a, b in case["t1"]]
+    t2 = [(from_us(a), from_us(b)) for a, b in case["t2"]]
+    lo = None if case["start"] is None else from_us(case["start"])
+    hi = None if case["end"] is None else from_us(case["end"])
     d = tempfile.mkdtemp(dir=scratch)
     try:
         dirs = []
         for k, ts in enumerate((t1, t2)):
             sub = os.path.join(d, f"s{k}")
             os.makedirs(sub)
-            fs = FileSet(os.path.join(sub, TEMPLATE), name=f"s{k}")
-            for a, b in ts:
-                open(fs.get_filename((a, b)), "w").close()
+            fs = FileSet(os.path.join(sub, TEMPLATE_US if micro else TEMPLATE), name=f"s{k}")
+            for a_, b_ in ts:
+                open(own_name(sub, a_, b_, micro), "w").close()
             dirs.append(fs)
         a, b = dirs
-        lo = min(t1[0][0], t2[0][0]) - dt.timedelta(hours=2)
-        hi = max(t1[-1][1], t2[-1][1]) + dt.timedelta(hours=2)
-        if rng.random() < 0.5 and not long_scale:   # period cutting through the data
-            lo = origin + dt.timedelta(microseconds=rng.randint(0, 200) * 1_000_000)
-            hi = lo + dt.timedelta(microseconds=rng.randint(1, 400) * 1_000_000)
         mi = None if mi_us is None else dt.timedelta(microseconds=mi_us)
-        case = {"op": "match", "t1": [[us(x), us(y)] for x, y in t1], "t2": [[us(x), us(y)] for x, y in t2],
-                "start": us(lo), "end": us(hi), "mi": mi_us}
+        w = dt.timedelta(0) if mi is None else mi
+        # widened search period, clipped to the range of datetime (independent of typhon)
+        def widen(t, sign):
+            if t is None:
+                return dt.datetime.min if sign < 0 else dt.datetime.max
+            try:
+                return t - w if sign < 0 else t + w
+            except OverflowError:
+                return dt.datetime.min if sign < 0 else dt.datetime.max
+        wlo, whi = widen(lo, -1), widen(hi, +1)
         try:
             got = list(a.match(b, lo, hi, max_interval=mi))
+            raised = None
+        except NoFilesError:
+            got, raised = None, "nofiles"
         except Exception as e:
-            from typhon.files.fileset import NoFilesError
-            if isinstance(e, NoFilesError):
-                ck.case(kind="match/nofiles")
-                return
             ck.violation(classify(case), f"match raised {type(e).__name__}: {e}", case)
             return
-        w = dt.timedelta(0) if mi is None else mi
         # the files both find() calls are expected to deliver (C01 territory; taken from the real code)
-        f1 = list(a.find(lo - w, hi + w, no_files_error=False))
-        f2 = list(b.find(lo - w, hi + w, no_files_error=False))
+        f1 = list(a.find(wlo, whi, no_files_error=False))
+        f2 = list(b.find(wlo, whi, no_files_error=False))
+        if raised == "nofiles":
+            ck.case(kind="match/nofiles")
+            if f1 and f2:
+                ck.violation(classify(case), f"match raised NoFilesError although both filesets have files in the widened period ({len(f1)} / {len(f2)})", case)
+            return
         want = []
         for p in f1:
-            partners = [s for s in f2 if s.times[0] - w <= p.times[1] and p.times[0] <= s.times[1] + w]
+            partners = [s_ for s_ in f2 if s_.times[0] - w <= p.times[1] and p.times[0] <= s_.times[1] + w]
             if partners:
-                want.append((p.path, [s.path for s in partners]))
-        gotc = [(p.path, [s.path for s in ss]) for p, ss in got]
+                want.append((p.path, [s_.path for s_ in partners]))
+        gotc = [(p.path, [s_.path for s_ in ss]) for p, ss in got]
         npairs = sum(len(x[1]) for x in want)
-        ck.case(key=json.dumps(case) if npairs > 1 else None, kind="match/" + ("long/" if long_scale else "") + ("mi>=1d" if (mi_us or 0) >= 86_400_000_000 else "mi" if mi_us else "nomi"),
+        kind = "match/" + ("long/" if case.get("long") else "micro/" if micro else "") + \
+               ("open/" if lo is None or hi is None else "") + \
+               ("mi>=1d" if (mi_us or 0) >= 86_400_000_000 else "mi" if mi_us else "nomi")
+        ck.case(key=json.dumps(case) if npairs > 1 else None, kind=kind,
                 sample={"t1": case["t1"][:4], "t2": case["t2"][:4], "mi": mi_us, "pairs": npairs})
         if gotc != want:
-            ck.violation(classify(case), f"match yielded {[(os.path.basename(p), [os.path.basename(s) for s in ss]) for p, ss in gotc][:4]} "
-                                         f"expected {[(os.path.basename(p), [os.path.basename(s) for s in ss]) for p, ss in want][:4]}", case)
+            ck.violation(classify(case), f"match yielded {[(os.path.basename(p), [os.path.basename(s_) for s_ in ss]) for p, ss in gotc][:4]} "
+                                         f"expected {[(os.path.basename(p), [os.path.basename(s_) for s_ in ss]) for p, ss in want][:4]}", case)
         if use_model:
             x1 = [(us(f.times[0]), us(f.times[1])) for f in f1]
             x2 = [(us(f.times[0]), us(f.times[1])) for f in f2]
@@ -239,7 +288,7 @@ def match_case(ck, rng, scratch, use_model=True):
             line = f"match {mi_us or 0} {len(x1)} " + " ".join(f"{p} {q}" for p, q in x1) + f" {len(x2)} " + " ".join(f"{p} {q}" for p, q in x2)
             out = ck.driver([line])[0]
             model = [] if out == "-" else [(int(t.split(":")[0]), [int(j) for j in t.split(":")[1].split(",")]) for t in out.split()]
-            code = [(f1.index(p), [f2.index(s) for s in ss]) for p, ss in got]
+            code = [(f1.index(p), [f2.index(s_) for s_ in ss]) for p, ss in got]
             if model != code:
                 ck.disagree(f"match: model {model[:5]} vs code {code[:5]}", case)
     finally:
@@ -247,7 +296,15 @@ def match_case(ck, rng, scratch, use_model=True):
 
 
 # ---------------------------------------------------------------- corpus replay
-def run_corpus_case(ck, c, use_model=True):
+def run_corpus_case(ck, c, use_model=True, scratch=None):
+    if c.get("op") == "match":
+        own = scratch is None
+        scratch = scratch or tempfile.mkdtemp(prefix="verif_c03_")
+        try:
+            run_match(ck, c, scratch, use_model)
+        finally:
+            if own:
+                shutil.rmtree(scratch, ignore_errors=True)
     if c.get("op") == "tree":
         ivs = [tuple(x) for x in c["intervals"]]
         tree_case(ck, ivs, [tuple(q) for q in c.get("queries", [])], list(c.get("points", [])),
@@ -314,9 +371,9 @@ def replay(path):
     c = obj.get("case")
     if not c:
         print(json.dumps(obj, indent=1)[:2000])
+        print("NOT-REPLAYABLE: no failing input was found for this violation (broken obligation / correspondence)")
         raise SystemExit(1)
-    if c.get("op") == "tree":
-        run_corpus_case(ck, c, use_model=False)
+    run_corpus_case(ck, c, use_model=False)
     for v in ck.violations:
         print("REPRODUCED:", v["what"])
     raise SystemExit(1 if ck.violations else 0)
